@@ -20,16 +20,17 @@ Rows(A) == Size(A.dom)
 Cols(A) == Size(A.cod)
 Ent(A, r, c) == A.a[r * Cols(A) + c + 1]                       \* 0-based r, c
 T(dm, cd, f(_, _)) ==                                           \* tensor from an entry function
+  LET m == Size(cd) IN
   [dom |-> dm, cod |-> cd,
-   a |-> TLCEval([k \in 1..(Size(dm) * Size(cd)) |-> f((k - 1) \div Size(cd), (k - 1) % Size(cd))])]
+   a |-> TLCEval([k \in 1..(Size(dm) * m) |-> TLCEval(f((k - 1) \div m, (k - 1) % m))])]
 RECURSIVE SumTo(_, _)
 SumTo(f(_), n) == IF n = 0 THEN RZero ELSE RAdd(SumTo(f, n - 1), f(n - 1))   \* f(0) + ... + f(n-1)
 
-MatThen(A, B) == LET n == Cols(A) IN
-  T(A.dom, B.cod, LAMBDA r, c : LET g(k) == RMul(Ent(A, r, k), Ent(B, k, c)) IN SumTo(g, n))
-Kron(A, B) == LET rb == Rows(B) cb == Cols(B) IN
+MatThen(A, B) == LET n == Cols(A) m == Cols(B) IN
+  T(A.dom, B.cod, LAMBDA r, c : LET g(k) == RMul(A.a[r * n + k + 1], B.a[k * m + c + 1]) IN SumTo(g, n))
+Kron(A, B) == LET rb == Rows(B) cb == Cols(B) ca == Cols(A) IN
   T(A.dom \o B.dom, A.cod \o B.cod,
-    LAMBDA r, c : RMul(Ent(A, r \div rb, c \div cb), Ent(B, r % rb, c % cb)))
+    LAMBDA r, c : RMul(A.a[(r \div rb) * ca + (c \div cb) + 1], B.a[(r % rb) * cb + (c % cb) + 1]))
 ConjT(A) == T(A.cod, A.dom, LAMBDA r, c : RConj(Ent(A, c, r)))
 IdT(D) == T(D, D, LAMBDA r, c : IF r = c THEN ROne ELSE RZero)
 \* the wires of l, in order, move to the right of the wires of r
